@@ -82,6 +82,15 @@ Theorem C19_positional_is_single_call :
   forall calls s, rd (run qwrite_all calls s) = rd (run write_all [concat calls] s).
 Proof. exact positional_is_single_call. Qed.
 
+(* IncrementalDocument::save_to: the previous bytes are written around the counter and counted
+   afterwards; observably this is the same pipeline with the previous bytes as first call, so
+   (1)-(5) hold for incremental saves with calls := prev :: calls. *)
+Theorem C19_incremental_is_plain :
+  forall wa prev calls s,
+    rd (run_inc wa prev calls s) = rd (run wa (prev :: calls) s) /\
+    (fst (fst (run_inc wa prev calls s)) = WOk -> run_inc wa prev calls s = run wa (prev :: calls) s).
+Proof. exact run_inc_is_run. Qed.
+
 (* (6) "a later save of the same document ...": what a failed save leaves behind.  The save path
    mutates the document at one point (after [pre], before [post]); a failed save leaves the document
    untouched if fewer than |pre| bytes were delivered and otherwise exactly as a SUCCESSFUL save
@@ -180,6 +189,7 @@ Print Assumptions C19_failure_is_error_and_prefix.
 Print Assumptions C19_failure_at_position.
 Print Assumptions C19_positional_rechunking.
 Print Assumptions C19_positional_is_single_call.
+Print Assumptions C19_incremental_is_plain.
 Print Assumptions C19_failed_save_residue.
 Print Assumptions C19_sinks_sound.
 Print Assumptions C19_resave_table.
